@@ -478,6 +478,9 @@ func (m *monitor) encodeBoth(fs []field) (*encoded, bool) {
 				ok = false
 			}
 			e.ends = append(e.ends, buf.Len())
+			if !ok {
+				return // report the first disagreement of a list only
+			}
 		}
 	}); p != nil {
 		r.Violation("encode-panic", fmt.Sprintf("%v", p), describe(fs))
